@@ -74,6 +74,12 @@ def structural_trees():
     t["symlink_retained_outside"] = (["d1", "d2"], ["-S"], [
         {"p": "d1/L", "k": "sym", "to": "../out/T"}, {"p": "out/T", "k": "file", "c": lit("S")},
         {"p": "d2/sub/B", "k": "file", "c": lit("S")}, {"p": "d2/C", "k": "file", "c": lit("S")}])
+    # two freshly mounted tmpfs instances below one root: the k-th files of both have the same inode number - and
+    # here the same length but other bytes; plus a genuine pair (skipped when mounting is not permitted)
+    t["two_tmpfs"] = (["r"], [], [
+        {"p": "r/m1", "k": "tmpfs"}, {"p": "r/m2", "k": "tmpfs"},
+        {"p": "r/m1/one", "k": "file", "c": ["base", 20000, 1]}, {"p": "r/m2/one", "k": "file", "c": ["flip", 20000, 1, 15000]},
+        {"p": "r/m1/two", "k": "file", "c": ["base", 300, 2]}, {"p": "r/m2/two", "k": "file", "c": ["base", 300, 2]}])
     # overlapping / repeated input paths given on standard input, every path counted separately (--match-links):
     # a file reached twice is still ONE path - it may not be reported as a duplicate of itself
     t["stdin_overlap"] = (["r1", "r1/d", "r1"], ["-H"], [
@@ -278,6 +284,10 @@ def evaluate(case):
     isolate = "--isolate" in case["gargs"]
     feat = {"op": case["op"], "report_format": case["fmt"], "isolate": isolate, "symbolic_links": symlinks,
             "victim_name_class": name_class(case["entries"][0]["p"].split("/", 1)[1]) if case["tree"].startswith("n:") else "plain"}
+    if case["tree"] == "s:two_tmpfs":
+        from . import c09
+        if not c09.can_mount():
+            return {"violations": [], "nontrivial": None, "outcome": "skipped_no_mount"}
     with C.Scratch() as sc:
         entries = [dict(e, to=e["to"].replace("@TREE@", sc.tree)) if e["k"] == "sym" else e for e in case["entries"]]
         C.make_tree(sc.tree, entries)
@@ -370,12 +380,12 @@ def evaluate(case):
                     ri = [i for i, r in enumerate(roots_abs) if p.startswith(r + "/")]
                     replicas.setdefault(("root", ri[0] if ri else p), []).append(p)   # --isolate: one replica per root
                     continue
-                key = rec["ino"] if rec["type"] == "file" else ("sym", rec.get("target"))
+                key = (rec["dev"], rec["ino"]) if rec["type"] == "file" else ("sym", rec.get("target"))
                 if rec["type"] == "sym":
                     # replica of a reported symlink = the file it points to
                     tp = os.path.normpath(os.path.join(os.path.dirname(p), rec["target"]))
                     if tp in before and before[tp]["type"] == "file":
-                        key = before[tp]["ino"]
+                        key = (before[tp]["dev"], before[tp]["ino"])
                 replicas.setdefault(key, []).append(p)
             untouched = 0
             for key, ps in replicas.items():
